@@ -3,6 +3,8 @@
 package cl
 
 import (
+	"math/big"
+
 	"github.com/ohler55/slip"
 )
 
@@ -17,9 +19,9 @@ func init() {
 			Name: "gcd",
 			Args: []*slip.DocArg{
 				{Name: "&rest"},
-				{Name: "integers", Type: "fixnum"},
+				{Name: "integers", Type: "integer"},
 			},
-			Return: "fixnum",
+			Return: "integer",
 			Text:   `__gcd__ returns the greatest common divisor of _integers_.`,
 			Examples: []string{
 				"(gcd) => 0",
@@ -36,27 +38,24 @@ type Gcd struct {
 
 // Call the function with the arguments provided.
 func (f *Gcd) Call(s *slip.Scope, args slip.List, depth int) slip.Object {
-	z := slip.Fixnum(0)
-	for i, a := range args {
-		num, ok := a.(slip.Fixnum)
-		if !ok {
-			slip.TypePanic(s, depth, "integers", a, "fixnum")
-		}
-		if num < 0 {
-			num = -num
-		}
-		if i == 0 { // first one
-			z = num
-		} else {
-			z = gcd(z, num)
-		}
+	var z big.Int
+	for _, a := range args {
+		// GCD() takes zero and negative values and is never negative.
+		_ = z.GCD(nil, nil, &z, bigIntArg(s, a, depth))
 	}
-	return z
+	return intReduce(&z)
 }
 
-func gcd(x, y slip.Fixnum) slip.Fixnum {
-	for y != 0 {
-		x, y = y, x%y
+// bigIntArg returns a fixnum or bignum argument as a big.Int and panics on
+// anything else.
+func bigIntArg(s *slip.Scope, arg slip.Object, depth int) (bi *big.Int) {
+	switch ta := arg.(type) {
+	case slip.Fixnum:
+		bi = big.NewInt(int64(ta))
+	case *slip.Bignum:
+		bi = (*big.Int)(ta)
+	default:
+		slip.TypePanic(s, depth, "integers", arg, "integer")
 	}
-	return x
+	return
 }
